@@ -48,6 +48,7 @@ struct Ref {
     std::set<Pt> stale;                       // loaded points whose stored value is not a supplied one (after a coefficient overwrite) until they are re-supplied
     std::set<Pt> present;                     // every point the grid has held or been given so far (C08: domination of new limits)
     std::set<Pt> present_loaded;              // the subset that was loaded or delivered (a pending refinement is replaced by the next refinement call: it does not bind new limits)
+    std::set<Pt> initial;                     // points that were present but not loaded when a construction began (handed back as candidates whatever the limits)
 };
 
 inline bool isLocalFam(const TasmanianSparseGrid &g){ return g.isLocalPolynomial() || g.isWavelet(); }
@@ -105,7 +106,10 @@ inline bool apply(TasmanianSparseGrid &g, const Op &op, Ref &r, ApplyInfo *info 
     }
     if (k == "round"){ // macro transition: one complete adaptive round = refine (a tol, b criteria / type) then load the model values of the needed points
         if (constr || outs == 0 || g.getNumLoaded() == 0 || g.getNumNeeded() > 0) return false;
-        if (local) g.setSurplusRefinement(tol_of(op.a), crit_of(op.b), -1, std::vector<int>());
+        if (local && op.d >= 10){ // d = 10 + k: the scale correction is the indicator of loaded point k (refinement steered to a single point: irregular, non-lower index sets)
+            int n = g.getNumLoaded(); if (op.d - 10 >= n) return false; std::vector<double> s((size_t) n * (size_t) outs, 0.0); for(int q=0;q<outs;q++) s[(size_t)(op.d - 10) * (size_t) outs + (size_t) q] = 1.0;
+            g.setSurplusRefinement(tol_of(op.a), crit_of(op.b), -1, std::vector<int>(), s); }
+        else if (local) g.setSurplusRefinement(tol_of(op.a), crit_of(op.b), -1, std::vector<int>());
         else if (nonNestedGlobal(g)) return false;
         else g.setAnisotropicRefinement(type_of(op.b), 2, 0, std::vector<int>());
         if (g.getNumNeeded() == 0) return true;
@@ -184,6 +188,15 @@ inline bool apply(TasmanianSparseGrid &g, const Op &op, Ref &r, ApplyInfo *info 
     if (k == "begin"){ if (constr || outs == 0 || nonNestedGlobal(g)) return false; g.beginConstruction(); return true; }
     if (k == "finish"){ if (!constr) return false; g.finishConstruction(); return true; }
     if (k == "cand"){ if (!constr) return false; auto c = candidates(g, op, r); if (info){ info->cand = c; auto L = limits_of(op.e, d); info->limits_passed = !L.empty(); info->limits_arg = L; } return true; }
+    if (k == "bdeliver"){ // macro transition: beginConstruction() followed by deliver (same arguments)
+        if (constr || outs == 0 || nonNestedGlobal(g)) return false;
+        g.beginConstruction(); Op q = op; q.a = 0; auto x = candidates(g, q, r); size_t n = x.size() / d; if (n == 0) return true;
+        if (info){ info->cand = x; auto L = limits_of(op.e, d); info->limits_passed = !L.empty(); info->limits_arg = L; }
+        size_t cnt = (op.a == 0) ? std::min<size_t>(n, 12) : std::min<size_t>(n, (size_t) op.a);
+        std::vector<double> y = (op.b == 0) ? std::vector<double>(x.begin(), x.begin() + cnt * d) : std::vector<double>(x.end() - cnt * d, x.end());
+        auto v = model_values(r.model_kind, y, d, outs); ref_supply(r, y, v, d, outs); if (info) info->delivered = y;
+        g.loadConstructedPoints(y, v); return true;
+    }
     if (k == "deliver"){ // a: how many (0 = all, capped at 12), b: from the front (0) or the back (1) of the candidate list; e limits, c/d as for cand
         if (!constr) return false;
         Op q = op; q.a = 0; auto x = candidates(g, q, r); size_t n = x.size() / d; if (n == 0) return false;
